@@ -254,3 +254,8 @@ def copyAt (dst : Bytes) (lo : Int) (src : Bytes) : M Bytes :=
   pure (dst.take k ++ src.take n ++ dst.drop (k + n))
 
 end ModVerif.GoRt
+
+namespace ModVerif.GoRt
+/-- an error value that wraps an inner error (`&T{…, Err: err}`, `fmt.Errorf("…%v", err)`): outer name, `|`, inner text -/
+def wrapErr (name : String) (inner : Option String) : Option String := some (name ++ "|" ++ inner.getD "")
+end ModVerif.GoRt
